@@ -901,18 +901,31 @@ class RTCSctpTransport(AsyncIOEventEmitter):
         chunk_pos = self._sent_queue.index(chunk)
         for pos in range(chunk_pos, -1, -1):
             ochunk = self._sent_queue[pos]
-            ochunk._abandoned = True
-            ochunk._retransmit = False
+            self._abandon_chunk(ochunk, ochunk is not chunk)
             if ochunk.flags & SCTP_DATA_FIRST_FRAG:
                 break
         for pos in range(chunk_pos, len(self._sent_queue)):
             ochunk = self._sent_queue[pos]
-            ochunk._abandoned = True
-            ochunk._retransmit = False
+            self._abandon_chunk(ochunk, ochunk is not chunk)
             if ochunk.flags & SCTP_DATA_LAST_FRAG:
                 break
 
         return True
+
+    def _abandon_chunk(self, chunk: DataChunk, sibling: bool) -> None:
+        """
+        Mark a chunk as abandoned. A sibling fragment which is still counted
+        as in flight leaves the flight, it will never be acknowledged.
+        """
+        if (
+            sibling
+            and not chunk._abandoned
+            and not chunk._acked
+            and not chunk._retransmit
+        ):
+            self._flight_size_decrease(chunk)
+        chunk._abandoned = True
+        chunk._retransmit = False
 
     def _mark_received(self, tsn: int) -> bool:
         """
@@ -1575,6 +1588,7 @@ class RTCSctpTransport(AsyncIOEventEmitter):
                     return
                 self._flight_size_increase(chunk)
 
+                chunk._acked = False
                 chunk._misses = 0
                 chunk._retransmit = False
                 chunk._sent_count += 1
